@@ -81,9 +81,14 @@ func symxC19Subs() {
 		case 3:
 			buf, err := t.Dump()
 			rt.Assert(err == nil, "C19.subs.dump_ok")
-			t2 := NewTree()
-			rt.Assert(t2.Load(buf) == nil, "C19.subs.load_ok")
-			t = t2
+			// into a fresh store, or back into the store the dump came from
+			if rt.Bool("load_into_the_same_store") {
+				rt.Assert(t.Load(buf) == nil, "C19.subs.load_ok")
+			} else {
+				t2 := NewTree()
+				rt.Assert(t2.Load(buf) == nil, "C19.subs.load_ok")
+				t = t2
+			}
 			loaded = true
 		}
 		symxCheckAll(t, &ref)
